@@ -63,6 +63,9 @@ def nbnode(nb):
     return nbformat.from_dict(copy.deepcopy(nb))
 
 
+LAST_ERROR_SITE = [None]
+
+
 def run_merge(b, l, r, args):
     from nbdime.merging.notebooks import merge_notebooks
     try:
@@ -71,7 +74,8 @@ def run_merge(b, l, r, args):
     except Exception as e:
         import traceback
         tb = traceback.extract_tb(e.__traceback__)
-        where = ['%s:%d' % (f.filename.split('/nbdime/')[-1], f.lineno) for f in tb[-3:]]
+        where = ['%s:%s:%d' % (f.filename.split('/nbdime/')[-1], f.name, f.lineno) for f in tb[-3:]]
+        LAST_ERROR_SITE[0] = [type(e).__name__] + [f.name for f in reversed(tb[-2:])]
         return ('err', exc_class(e), '%s: %s @ %s' % (type(e).__name__, str(e)[:200], ' < '.join(reversed(where))))
 
 
